@@ -7,14 +7,23 @@ open Argot.SGraph
 
 structure PAcc where
   id : String := ""
-  st : State := {}
-  sites : List (Nat × Nat) := []
-  cinstrs : List (Nat × Nat) := []
+  sites : Array Nat := #[]     -- indexed by node id
+  cinstrs : Array Nat := #[]
+  calleeR : Array (Nat × Nat) := #[]
+  callsiteR : Array (Nat × Nat × Nat) := #[]
+  closureR : Array (Nat × Nat) := #[]
+  referringR : Array (Nat × Nat × Nat) := #[]
+  accessR : Array AccessNode := #[]
+  constructedR : Array Nat := #[]
+  readR : Array (Nat × Nat) := #[]
+  writeR : Array (Nat × Nat) := #[]
   outR : Array (Nat × Nat × Int) := #[]
   innR : Array (Nat × Nat × Int) := #[]
   bad : Bool := false
 
-def lookupD (l : List (Nat × Nat)) (k : Nat) : Nat := match l.find? (·.1 == k) with | some p => p.2 | none => 0
+def setAt (a : Array Nat) (i v : Nat) : Array Nat :=
+  let a := if a.size ≤ i then a ++ Array.replicate (i + 1 - a.size) 0 else a
+  a.set! i v
 
 def b (x : Bool) : String := if x then "1" else "0"
 
@@ -24,8 +33,14 @@ def nat3 (a b c : String) : Option (Nat × Nat × Nat) := do
 def showT (t : Nat × Nat × Int) : String := s!"{t.1}>{t.2.1}:{t.2.2}"
 
 def finish (a : PAcc) : String :=
-  let st : State := { a.st with e := { out := a.outR.toList, inn := a.innR.toList } }
-  let σ : Static := { site := lookupD a.sites, cinstr := lookupD a.cinstrs }
+  let st : State := { e := { out := a.outR.toList, inn := a.innR.toList },
+                      calleeSummary := a.calleeR.toList, callsites := a.callsiteR.toList,
+                      closureSummary := a.closureR.toList, referring := a.referringR.toList,
+                      access := a.accessR.toList, constructed := a.constructedR.toList,
+                      readLoc := a.readR.toList, writeLoc := a.writeR.toList }
+  let sites := a.sites
+  let cinstrs := a.cinstrs
+  let σ : Static := { site := fun n => sites.getD n 0, cinstr := fun n => cinstrs.getD n 0 }
   let e := invEdges st
   let c := invCalls σ st
   let cl := invClosures σ st
@@ -48,7 +63,6 @@ partial def loop (h : IO.FS.Stream) (a : PAcc) : IO Unit := do
   if line.isEmpty then return ()
   let line := if line.endsWith "\n" then (line.dropEnd 1).toString else line
   let ws := line.splitOn "\t"
-  let st := a.st
   match ws with
   | ["begin", id] => loop h { id := id }
   | ["end"] =>
@@ -56,11 +70,11 @@ partial def loop (h : IO.FS.Stream) (a : PAcc) : IO Unit := do
     loop h {}
   | ["site", n, s] =>
     match n.toNat?, s.toNat? with
-    | some n, some s => loop h { a with sites := (n, s) :: a.sites }
+    | some n, some s => loop h { a with sites := setAt a.sites n s }
     | _, _ => loop h { a with bad := true }
   | ["cinstr", n, s] =>
     match n.toNat?, s.toNat? with
-    | some n, some s => loop h { a with cinstrs := (n, s) :: a.cinstrs }
+    | some n, some s => loop h { a with cinstrs := setAt a.cinstrs n s }
     | _, _ => loop h { a with bad := true }
   | ["out", s, d, i] =>
     match s.toNat?, d.toNat?, i.toInt? with
@@ -72,35 +86,35 @@ partial def loop (h : IO.FS.Stream) (a : PAcc) : IO Unit := do
     | _, _, _ => loop h { a with bad := true }
   | ["callee", n, s] =>
     match n.toNat?, s.toNat? with
-    | some n, some s => loop h { a with st := { st with calleeSummary := st.calleeSummary ++ [(n, s)] } }
+    | some n, some s => loop h { a with calleeR := a.calleeR.push (n, s) }
     | _, _ => loop h { a with bad := true }
   | ["callsite", s, t, n] =>
     match nat3 s t n with
-    | some x => loop h { a with st := { st with callsites := st.callsites ++ [x] } }
+    | some x => loop h { a with callsiteR := a.callsiteR.push x }
     | none => loop h { a with bad := true }
   | ["closure", c, s] =>
     match c.toNat?, s.toNat? with
-    | some c, some s => loop h { a with st := { st with closureSummary := st.closureSummary ++ [(c, s)] } }
+    | some c, some s => loop h { a with closureR := a.closureR.push (c, s) }
     | _, _ => loop h { a with bad := true }
   | ["referring", s, t, n] =>
     match nat3 s t n with
-    | some x => loop h { a with st := { st with referring := st.referring ++ [x] } }
+    | some x => loop h { a with referringR := a.referringR.push x }
     | none => loop h { a with bad := true }
   | ["access", n, s, g, w] =>
     match nat3 n s g with
-    | some (n, s, g) => loop h { a with st := { st with access := st.access ++ [⟨n, s, g, w == "1"⟩] } }
+    | some (n, s, g) => loop h { a with accessR := a.accessR.push ⟨n, s, g, w == "1"⟩ }
     | none => loop h { a with bad := true }
   | ["constructed", s] =>
     match s.toNat? with
-    | some s => loop h { a with st := { st with constructed := st.constructed ++ [s] } }
+    | some s => loop h { a with constructedR := a.constructedR.push s }
     | none => loop h { a with bad := true }
   | ["read", g, n] =>
     match g.toNat?, n.toNat? with
-    | some g, some n => loop h { a with st := { st with readLoc := st.readLoc ++ [(g, n)] } }
+    | some g, some n => loop h { a with readR := a.readR.push (g, n) }
     | _, _ => loop h { a with bad := true }
   | ["write", g, n] =>
     match g.toNat?, n.toNat? with
-    | some g, some n => loop h { a with st := { st with writeLoc := st.writeLoc ++ [(g, n)] } }
+    | some g, some n => loop h { a with writeR := a.writeR.push (g, n) }
     | _, _ => loop h { a with bad := true }
   | [""] => loop h a
   | _ => loop h { a with bad := true }
